@@ -64,7 +64,8 @@ class FuncInfo(object):
 
     @property
     def is_coroutine(self):
-        return any(t == 'coroutine' for t, _ in self.decorators)
+        return isinstance(self.node, ast.AsyncFunctionDef) or \
+            any(t == 'coroutine' for t, _ in self.decorators)
 
     @property
     def synchronized(self):
